@@ -77,6 +77,10 @@ def main(argv):
     ctx = Ctx(tier, seed)
     try:
         mod.run(ctx, rep)
+        if tier == 'thorough':
+            import thorough
+            thorough.witnesses(rep)
+            thorough.selftest(rep)
     except BuildFailed as e:
         rep.indet('cannot extract facts: /repo does not build under `cargo +nightly check`: %s' % str(e)[-1500:])
     except Missing as e:
